@@ -30,6 +30,7 @@ type Engine struct {
 	contractDirs  map[string]string // pkgpath -> dir
 	funcDecls     map[string]*ast.FuncDecl
 	funcPkg       map[string]*packages.Package
+	varLits       map[string]*ast.FuncLit // package-level `var f = func...` units
 	verbose       bool
 	luaTrusted    []string
 	notDecided    map[string][]string
@@ -45,7 +46,7 @@ type Engine struct {
 func newEngine(repo, verif string) *Engine {
 	return &Engine{repo: repo, verif: verif, cs: newContractSet(), pkgs: map[string]*packages.Package{}, famSorts: map[string]Sort{},
 		trusted: map[string]map[string]bool{}, meta: map[string]map[string]bool{}, contractDirs: map[string]string{},
-		funcDecls: map[string]*ast.FuncDecl{}, funcPkg: map[string]*packages.Package{}, notDecided: map[string][]string{}, lemmaUsed: map[string]bool{}, repDone: map[string]bool{}}
+		funcDecls: map[string]*ast.FuncDecl{}, funcPkg: map[string]*packages.Package{}, varLits: map[string]*ast.FuncLit{}, notDecided: map[string][]string{}, lemmaUsed: map[string]bool{}, repDone: map[string]bool{}}
 }
 
 func (e *Engine) specError(msg string) {
@@ -214,6 +215,30 @@ func (e *Engine) load(only map[string]bool) error {
 		e.pkgs[p.PkgPath] = p
 		for _, f := range p.Syntax {
 			for _, d := range f.Decls {
+				if gd, isGen := d.(*ast.GenDecl); isGen && gd.Tok == token.VAR {
+					// package-level `var f = func(...) {...}`: a function value that is a unit like a function declaration
+					// (contract header `//@ func f`); the synthetic declaration shares the literal's type and body
+					for _, sp := range gd.Specs {
+						vs, ok := sp.(*ast.ValueSpec)
+						if !ok || len(vs.Names) != len(vs.Values) {
+							continue
+						}
+						for i, nm := range vs.Names {
+							lit, isLit := ast.Unparen(vs.Values[i]).(*ast.FuncLit)
+							if !isLit || nm.Name == "_" {
+								continue
+							}
+							k := p.PkgPath + "." + nm.Name
+							if _, taken := e.funcDecls[k]; taken {
+								continue
+							}
+							e.funcDecls[k] = &ast.FuncDecl{Name: nm, Type: lit.Type, Body: lit.Body}
+							e.funcPkg[k] = p
+							e.varLits[k] = lit
+						}
+					}
+					continue
+				}
 				fd, ok := d.(*ast.FuncDecl)
 				if !ok {
 					continue
@@ -307,8 +332,12 @@ func (e *Engine) runUnit(c *Contract) (u *Unit) {
 	u.fdecl = fd
 	u.ftype = fd.Type
 	u.body = fd.Body
-	obj := pkg.TypesInfo.Defs[fd.Name].(*types.Func)
-	u.sig = obj.Type().(*types.Signature)
+	if lit := e.varLits[baseKey]; lit != nil {
+		u.sig, _ = pkg.TypesInfo.TypeOf(lit).(*types.Signature)
+	} else {
+		obj := pkg.TypesInfo.Defs[fd.Name].(*types.Func)
+		u.sig = obj.Type().(*types.Signature)
+	}
 	u.floatIEEE = c.Flags["float_ieee"]
 	u.overflow = c.Flags["overflow_checked"]
 	// ordinals over the whole enclosing function
